@@ -1,6 +1,7 @@
 package simkit
 
 import (
+	"context"
 	"crypto/sha256"
 	"encoding/hex"
 	"fmt"
@@ -333,4 +334,15 @@ func ShortErr(err error) string {
 		s = s[:120] + "…"
 	}
 	return s
+}
+
+// StartContext returns the context to hand to a component's Start and a function to call right after Start has returned.
+// The component contract says that context "will be cancelled soon": half of the time (tape) the function cancels it at
+// once, the harshest legal behaviour of a host; otherwise at the end of the run via the returned cancel being dropped.
+func StartContext(tp *Tape) (context.Context, func()) {
+	ctx, cancel := context.WithCancel(context.Background())
+	if tp.Chance(1, 2) {
+		return ctx, cancel
+	}
+	return ctx, func() {}
 }
